@@ -915,10 +915,18 @@ def _embed(outer, inner, use_varargs=True, use_varkwargs=True, depth=1):
     e_kwoargs.update(i_kwoargs)
 
     o_src = dict(o_src)
+    # the inner callable is called by whoever the forwarded stars belong to,
+    # which need not be the outermost callable (a partial object, an earlier
+    # level of forwarding)
+    o_depths = o_src.get('+depths', {})
+    owners = []
     if o_varargs and use_varargs:
-        o_src.pop(o_varargs.name, None)
+        owners.extend(o_src.pop(o_varargs.name, ()))
     if o_varkwargs and use_varkwargs:
-        o_src.pop(o_varkwargs.name, None)
+        owners.extend(o_src.pop(o_varkwargs.name, ()))
+    known = [o_depths[func] for func in owners if func in o_depths]
+    if known:
+        depth = max(known) + 1
     src = dict(i_src, **o_src)
 
     src['+depths'] = merge_depths(
